@@ -81,6 +81,34 @@ impl Out {
             self.failures.push(serde_json::json!({"what": what, "input": input, "impl": got, "expected": want, "last_op": self.ops.last().cloned().unwrap_or_default()}));
         }
     }
+    /// Purity re-check: every operation line must fully determine its result. A sample of the recorded operations is
+    /// executed again in a shuffled order (and once more in reverse order of recording); a result that differs from the
+    /// recorded one means the library carries state across calls (a cache keyed on part of the input, a scratch buffer
+    /// that is not reset, ...). Child-isolated C04 cases and very long lines are skipped (cost).
+    pub fn purity_recheck(&mut self, seed: u64) {
+        let mut rng = Rng::new(seed ^ 0x5eed_0f_9u64);
+        let mut cand: Vec<usize> = (0..self.ops.len()).filter(|i| {
+            let (l, r) = (&self.ops[*i], &self.impls[*i]);
+            l.len() < 6000 && !l.starts_with("c04_") && !r.starts_with("PANIC") && !r.starts_with("TIMEOUT") && !r.starts_with("ABORT")
+        }).collect();
+        for i in (1..cand.len()).rev() { let j = rng.below(i as u64 + 1) as usize; cand.swap(i, j); }
+        cand.truncate(300);
+        let mut order = cand.clone();
+        let mut rev = cand.clone(); rev.sort(); rev.reverse();
+        order.extend(rev);
+        let mut bad = 0;
+        for i in order {
+            let again = crate::exec_line(&self.ops[i]);
+            self.direct_checks += 1;
+            if again != self.impls[i] && bad < 5 {
+                bad += 1;
+                let (l, r) = (self.ops[i].clone(), self.impls[i].clone());
+                self.failures.push(serde_json::json!({"what": "purity: the same operation line gave a different result when executed again in a different order (state carried across calls)",
+                    "input": trunc(&l, 600), "impl": trunc(&again, 300), "expected": trunc(&r, 300), "last_op": l}));
+            }
+        }
+        self.stat_n("purity-recheck.ops", 2 * cand.len() as u64);
+    }
     pub fn write(&self, dir: &str) {
         std::fs::create_dir_all(dir).unwrap();
         let mut f = BufWriter::new(File::create(format!("{}/ops.txt", dir)).unwrap());
